@@ -293,6 +293,12 @@ Fixpoint cross_walk (core : loc) (n : Z) (l : list proto) (st : list proto * lis
     cross_walk core n r (set_add c cg, set_add c found)
   end.
 
+(* `core_group`: the members with an origin-crossing core of the candidates whose joint core crosses *)
+Definition cross_core_group (crossing : list (cand * loc)) : list proto :=
+  fold_left (fun acc ck => fold_left (fun a p => set_add p a)
+                                     (filter (fun p => bridges (pcore p)) (cmem (fst ck))) acc)
+            crossing [].
+
 (* returns (found, groups') *)
 Definition find_cross_origin_interleaved (w : option Z) (cc : list (cand * loc)) (unassigned : list proto)
                                          (groups : list (list proto))
@@ -301,9 +307,7 @@ Definition find_cross_origin_interleaved (w : option Z) (cc : list (cand * loc))
   let crossing := filter (fun ck => cand_core_crosses (snd ck)) cc in
   if is_empty crossing then Ok ([], groups) else
   do core <- connect_locations (map snd crossing) w;
-  let core_group := fold_left (fun acc ck => fold_left (fun a p => set_add p a)
-                                                       (filter (fun p => bridges (pcore p)) (cmem (fst ck))) acc)
-                              crossing [] in
+  let core_group := cross_core_group crossing in
   if is_empty core_group then Err E_Assert else
   let n := zlen unassigned in
   (* direction -1: indices -1, -2, ... while abs(index) < n *)
@@ -452,6 +456,31 @@ Definition create_candidates (protos : list proto) (w : option Z) : res (list ca
     Ok (sort_by lt_cc cands)
   end.
 
+(* ---------- class of the recorded finding `joint_core_wraps_assert` ---------- *)
+(* the hybrid pass ends with a candidate whose joint core was connected the short way across the origin
+   although no member's core crosses it (only possible after two hybrid groups with the same coordinates
+   were united by build_candidates), and there is still an unassigned protocluster: `assert core_group`
+   in _find_cross_origin_interleaved then fails *)
+Definition class_joint_core_wraps (protos : list proto) (w : option Z) : bool :=
+  match protos with
+  | [] => false
+  | _ =>
+    match find_hybrids (sort_by lt_pp protos) w with
+    | Ok (hybrid_groups, unassigned1) =>
+      match build_candidates w K_HYBRID hybrid_groups [] [] with
+      | Ok (cands1, _, _) =>
+        match with_cores w cands1 with
+        | Ok cc =>
+          let crossing := filter (fun ck => cand_core_crosses (snd ck)) cc in
+          negb (is_empty unassigned1) && negb (is_empty crossing) && is_empty (cross_core_group crossing)
+        | Err _ => false
+        end
+      | Err _ => false
+      end
+    | Err _ => false
+    end
+  end.
+
 (* ---------- Protocluster.add_cds: the defining genes ---------- *)
 (* genes handed to add_cds are those wholly inside the protocluster's location; a gene is a
    defining gene iff it also lies inside the core location and has a CORE function with the
@@ -560,6 +589,18 @@ Definition run_C05 (fn : Z) (l : list Z) : list Z :=
       let gs := map (fun g => flat_map (fun i => match find_proto protos i with
                                                  | Some p => [p] | None => [] end) g) groups in
       eList (eList (fun p => [pid p])) (merge_sets gs)
+    | _ => bad_input
+    end
+  | 11 => (* finding class joint_core_wraps_assert for an input of fn 1 *)
+    match dPair (dPair (dPair dZ dBool) (dList dGene)) (dList dProto) l with
+    | Some ((n, circ, genes, protos), []) =>
+      eBool (class_joint_core_wraps (fold_left record_insert_proto (map (with_defs genes) protos) [])
+                                    (if circ then Some n else None))
+    | _ => bad_input
+    end
+  | 12 => (* ... for an input of fn 2 *)
+    match dPair (dOpt dZ) (dList dProtoD) l with
+    | Some ((w, protos), []) => eBool (class_joint_core_wraps protos w)
     | _ => bad_input
     end
   | 101 => (* spec on the implementation's output of fn 1 *)
